@@ -101,6 +101,6 @@ def _is_date_time(value: str) -> bool:
         return True
     try:
         parse_datetime(value)
-    except (ParserError, TypeError):
+    except (ParserError, TypeError, OverflowError):
         return False
     return True
